@@ -148,3 +148,50 @@ func H06b_twin() {
 		vAssert(false, "H06b_twin.reach: reachable")
 	}
 }
+
+// H08g: two goroutines add the same transaction, or two siblings, concurrently (every schedule within the
+// preemption bound): afterwards digests, listing, highest clock, head and count equal what the stored set
+// implies - in the running state and after a restart from the store.
+func H08g() {
+	leafSize := uint32(2)
+	hb := vParam("hashbytes", 1)
+	kv := newHKV()
+	s := hNewState(kv, leafSize, func(Transaction) bool { return true })
+	txs := hHistory(s, 1, hb)
+	a := hValidNext(txs, hb)
+	b := a
+	same := vBool()
+	if !same {
+		b = hValidNext(txs, hb)
+		vAssume(b.ref != a.ref)
+		vCover("siblings")
+	} else {
+		vCover("same-tx")
+	}
+	ctx := context.Background()
+	vGo(func() { _ = s.Add(ctx, a, nil) })
+	vGo(func() { _ = s.Add(ctx, b, nil) })
+	vWait()
+	set := append(txs, a)
+	if !same {
+		set = append(set, b)
+	}
+	hCheckDerived("H08g", s, kv, set, leafSize)
+	s2 := hNewState(kv, leafSize, func(Transaction) bool { return true })
+	s2.loadState(ctx)
+	hCheckDerived("H08g.restart", s2, kv, set, leafSize)
+}
+
+func H08g_twin() {
+	kv := newHKV()
+	s := hNewState(kv, 2, func(Transaction) bool { return true })
+	txs := hHistory(s, 1, 1)
+	a := hValidNext(txs, 1)
+	n := 0
+	vGo(func() { _ = s.Add(context.Background(), a, nil); n++ })
+	vGo(func() { _ = s.Add(context.Background(), a, nil); n++ })
+	vWait()
+	if n == 2 {
+		vAssert(false, "H08g_twin.reach: reachable")
+	}
+}
